@@ -264,7 +264,7 @@ class DeviceConn:
                     if buf:
                         sock.rx.append(buf)
                         buf = b""
-                    sock.rx.append(b"" if it[0] == "eof" else it[1])
+                    sock.arrive(b"" if it[0] == "eof" else it[1])
             if buf and not cuts and self.cfg.chunk_policy == "split" and len(buf) > 1:
                 # TCP may hand the stream over in arbitrary pieces: cut every buffer into pieces of 1..8 bytes (deterministic pattern)
                 cuts_ = []
